@@ -2,14 +2,14 @@
 
 M  MarchCubes.tla over the tables extracted from the tree: all worlds of free corners with a
    positive boundary ring - every sign configuration, every face-adjacent pair (3 axes x 4096),
-   every {N,z,P} (and {N,n,z,P}) zero pattern of a 2x2x2 block.
-R  every enumerated world is rendered by the REAL uniform and octree renderers through the public
-   API (lattice-lookup field), the real triangles are projected to vertex ids.
+   every {N,z,P} (thorough: {N,n,z,P}) zero pattern of a 2x2x2 block, sampled larger blocks.
+R  every exported world is rendered by the REAL uniform and octree renderers through the public
+   API (lattice-lookup field); the real triangles are projected to vertex ids.
 T  MeshTrace.tla judges the property on every real mesh (balance, no degenerate triangle, positive
    volume, vertices on straddling edges, inside the box).
 """
-import json, random
 import vlib
+from worldcheck import run_worlds
 
 LEVEL = "model_checking"
 
@@ -26,32 +26,6 @@ CHECK_DEADLOCK FALSE
 """
 
 
-def worlds_from(res, dims, base):
-    vec = []
-    for raw in res.printed("VEC"):
-        code = int(raw.split(",")[0])
-        vec.append(dict(dims=list(dims), base=base, code=code))
-    return vec
-
-
-def model_bad(res):
-    return res.printed("MODELBAD")
-
-
-def replay_and_judge(chk, vectors, renderers=("mcu", "mco")):
-    text = "\n".join(json.dumps(v) for v in vectors) + "\n"
-    out = chk.vh(["c05-replay"] + list(renderers), stdin=text, timeout=1200)
-    obs = [json.loads(x) for x in out.splitlines() if x.strip()]
-    if len(obs) != len(vectors) * len(renderers):
-        raise vlib.Inconclusive("replay returned %d observations for %d vectors" % (len(obs), len(vectors)))
-    bad = chk.validate("MeshTrace", obs, timeout=1200)
-    return obs, bad
-
-
-def key_of(e, why):
-    return "%s:%s:b%d:%d:%s" % (e["r"], "x".join(map(str, e["dims"])), e["base"], e["code"], why)
-
-
 def run(chk, replay):
     chk.build()
     chk.gen()
@@ -61,91 +35,15 @@ def run(chk, replay):
         "vertex identification within 1e-6 cell and the doubled-coordinate projection are harness code (trusted)",
         "worlds have a positive boundary ring: the surface lies inside the sampled box, as the property presupposes",
     ]
-    if replay:
-        vec = [replay["replay"]["vector"]]
-        obs, bad = replay_and_judge(chk, vec, (replay["replay"]["renderer"],))
-        chk.traces += len(obs)
-        for e, why in bad:
-            chk.violation(key_of(e, why), "replayed world rejected: " + why, replay["replay"])
-        chk.sample(dict(replayed=vec))
-        return
-
-    rnd = random.Random(chk.seed)
-    plans = []   # (dims, base, lodigits, simulate)
     if chk.tier == "quick":
         plans = [((2, 2, 3), 2, 6, None), ((2, 3, 2), 2, 6, None), ((3, 2, 2), 2, 6, None),
                  ((2, 2, 2), 3, 4, None)]
-        sample_frac = {2: 0.35, 3: 0.5}
+        frac = {2: 0.35, 3: 0.5}
     else:
         plans = [((2, 2, 3), 2, 6, None), ((2, 3, 2), 2, 6, None), ((3, 2, 2), 2, 6, None),
                  ((2, 2, 2), 3, 4, None), ((2, 2, 2), 4, 4, None),
-                 ((2, 2, 3), 3, 6, "num=20000"), ((2, 3, 2), 3, 6, "num=20000"), ((3, 2, 2), 3, 6, "num=20000"),
-                 ((3, 3, 3), 2, 13, "num=6000")]
-        sample_frac = {2: 1.0, 3: 1.0, 4: 0.5}
-    allvec = []
-    model_counter = []
-    per_plan = []
-    for dims, base, lod, sim in plans:
-        cfg = CFG % (dims[0], dims[1], dims[2], base, lod)
-        res = chk.tlc("MarchCubes", cfg_text=cfg, timeout=3000, simulate=sim, depth=3 if sim else None,
-                      extra=["-continue"],
-                      name="MarchCubes %s base %d%s" % (dims, base, " simulate" if sim else ""))
-        if sim:
-            # simulation mode has no "distinct states" line: count worlds by vectors
-            pass
-        mb = model_bad(res)
-        if res.violated and not mb:
-            raise vlib.Inconclusive("MarchCubes model failed without a MODELBAD world: %s\n%s" % (res.violated, res.out[-2000:]))
-        vec = worlds_from(res, dims, base)
-        if sim:
-            seen = set()
-            vec = [v for v in vec if not (v["code"] in seen or seen.add(v["code"]))]
-        # worlds the MODEL flags are always replayed (rule 2: concretise the counter-example)
-        flagged = set(int(x.split(",")[0]) for x in mb)
-        for c in flagged:
-            model_counter.append(dict(dims=list(dims), base=base, code=c))
-            vec.append(dict(dims=list(dims), base=base, code=c))
-        frac = 1.0 if sim else sample_frac.get(base, 1.0)
-        chosen = [v for v in vec if v["code"] in flagged or rnd.random() < frac]
-        per_plan.append(dict(dims=dims, base=base, worlds_model_checked=len(vec), worlds_replayed=len(chosen),
-                             exhaustive=not sim, model_flagged=len(flagged)))
-        allvec += chosen
-    if not allvec:
-        raise vlib.Inconclusive("no vectors exported by TLC")
-    obs, bad = replay_and_judge(chk, allvec)
-    chk.traces += len(obs)
-    aligned = sum(1 for o in obs if o["aligned"])
-    nontrivial = sum(1 for o in obs if o["nt"] > 0)
-    drift = len(getattr(chk, "last_drift", []))
-    # confirm each rejected observation by replaying just that vector
-    confirmed = []
-    if bad:
-        # re-run just the rejected vectors (first few) and require the rejection to reproduce
-        first = bad[:8]
-        for r in sorted(set(e["r"] for e, _ in first)):
-            vs = [dict(dims=e["dims"], base=e["base"], code=e["code"]) for e, _ in first if e["r"] == r]
-            o2, b2 = replay_and_judge(chk, vs, (r,))
-            again = {(e["code"], tuple(e["dims"]), e["base"]): why for e, why in b2}
-            for v in vs:
-                k = (v["code"], tuple(v["dims"]), v["base"])
-                if k not in again:
-                    raise vlib.Inconclusive("rejected observation did not reproduce: %s %s" % (r, v))
-                e = [e for e, _ in first if e["r"] == r and e["code"] == v["code"] and e["dims"] == v["dims"]][0]
-                confirmed.append((e, again[k], v))
-    for e, why, v in confirmed:
-        chk.violation(key_of(e, why),
-                      "real %s mesh of world dims=%s base=%d code=%d rejected: %s (nt=%d)" % (
-                          e["r"], e["dims"], e["base"], e["code"], why, e["nt"]),
-                      dict(vector=v, renderer=e["r"], why=why))
-    if model_counter and not bad:
-        # the model (with the extracted tables) has a counter-example that the real code does not show
-        raise vlib.Inconclusive("model/code divergence: MarchCubes.tla flags %d worlds (e.g. %s) but every real mesh was accepted"
-                                % (len(model_counter), model_counter[0]))
-    for o in obs[:2000:500]:
-        chk.sample(dict(renderer=o["r"], dims=o["dims"], base=o["base"], code=o["code"], triangles=o["nt"],
-                        first_triangles=o["tris"][:3], aligned=o["aligned"]))
-    chk.cov.update(dict(plans=per_plan, meshes_judged=len(obs), meshes_aligned_with_model=aligned,
-                        meshes_nontrivial=nontrivial, drift_from_model_triangulation=drift,
-                        exhaustive=all(p["exhaustive"] for p in per_plan) and chk.tier == "thorough",
-                        rule="world = block of free corners (classes N,n,z,P) inside a positive ring; TLC enumerates "
-                             "codes; each is rendered by both real renderers and judged by MeshTrace.tla"))
+                 ((2, 2, 3), 3, 6, "num=15000"), ((2, 3, 2), 3, 6, "num=15000"), ((3, 2, 2), 3, 6, "num=15000"),
+                 ((3, 3, 3), 2, 13, "num=5000")]
+        frac = {2: 1.0, 3: 1.0, 4: 0.4}
+    run_worlds(chk, replay, "MarchCubes", "MeshTrace", "c05-replay", ("mcu", "mco"), plans, frac,
+               lambda d, b, l: CFG % (d[0], d[1], d[2], b, l), "nt")
